@@ -1,7 +1,7 @@
 (* C11: with the reserved set that activity.Scope.referenced computes ON THIS RUN (referenced_gen is
    translated from the source) and every call site passing scope.referenced (callsites_gen), no
-   generated name equals a name that the user's code reads or writes in the requesting scope or any
-   enclosing scope, nor a name of the function's namespace -- for every scope chain, every namespace,
+   generated name equals a name that the user's code reads, writes or binds in an except clause in the
+   requesting scope or any enclosing scope, nor a name of the function's namespace -- for every scope chain, every namespace,
    every sequence of requests. *)
 From Coq Require Import String List Arith Bool.
 Import ListNotations.
@@ -22,7 +22,7 @@ Theorem generated_names_never_clash : forall (ns gen : list string) (chain : lis
   exists cs g, new_symbols ns gen rq = Some (cs, g) /\ NoDup cs /\
     forall c, In c cs ->
       ~ In c ns /\ ~ In c gen /\
-      forall s, In s chain -> ~ In c (s_read s) /\ ~ In c (s_modified s).
+      forall s, In s chain -> ~ In c (s_read s) /\ ~ In c (s_modified s) /\ ~ In c (s_hidden s).
 Proof.
   intros ns gen chain reqs rq.
   destruct (new_symbols ns gen rq) as [[cs g]|] eqn:E; [|exfalso; eapply new_symbols_total; exact E].
@@ -37,7 +37,7 @@ Proof.
     - inversion F as [|c0 r0 cs0 rq0 H1 H2]; subst. destruct Hc as [<-|Hc].
       + simpl in H1. rewrite flatten_simple in H1. exact H1.
       + eapply IH; eauto. }
-  split; intros Hin; apply N; eapply referenced_covers; eauto using referenced_gen_covers_writes.
+  repeat split; intros Hin; apply N; eapply referenced_covers; eauto using referenced_gen_covers_writes.
 Qed.
 Print Assumptions generated_names_never_clash.
 Print Assumptions referenced_gen_covers_writes.
